@@ -114,6 +114,7 @@ RULES = {
     'P9g': ('rules_extra', 'into_single: clone before dropping the original, test the count after the drop'),
     'P15m': ('rules_extra', 'index arithmetic helpers keep their shape: mask = wrap-1, index = count & mask, new count = (count + by) & count mask, past / get_previous, refreshed tail = head - scan'),
     'P13e': ('rules_extra2', 'alloc / ToFree shapes: allocate = forgotten with_capacity(n); deallocate = from_raw_parts(p, 0, n); do_free drops num then deallocates num'),
+    'P13f': ('rules_extra2', 'no buffer is sized from another buffer\'s capacity (capacities must not be inherited by replacement lists)'),
     'P12k': ('rules_extra2', 'token life cycle: created at the current epoch under the lock and registered; removed by retain(!=); announce -> unregister -> retire'),
     'P15i': ('rules_extra2', 'initial state of a new queue: head = first stream = tail cache = last_pos = 0, one consumer, no pins'),
     'P12g': ('rules_extra', 'every operation that sees the epoch bit announces with its own token'),
@@ -152,7 +153,7 @@ PROPS = {
     'C14': FUTURES,
     'C15': FUTURES + ['P7a', 'S3'],
     'C16': ['P6a', 'P12k', 'P13e', 'W9', 'W12', 'P12a', 'P12b', 'P12c', 'P12d', 'P12e', 'P12f', 'P12g', 'P12i', 'P13d', 'P10c', 'P10d', 'P10f', 'P9e'],
-    'C17': ['P6a', 'P12k', 'P13e', 'P12e', 'P12f', 'P12g', 'P12h', 'P12i', 'P13a', 'P13b', 'P13d', 'P9e', 'P10c', 'P10d'],
+    'C17': ['P6a', 'P12k', 'P13e', 'P13f', 'P12e', 'P12f', 'P12g', 'P12h', 'P12i', 'P13a', 'P13b', 'P13d', 'P9e', 'P10c', 'P10d'],
     'C18': ['P14', 'P14n'],
 }
 
